@@ -30,16 +30,6 @@ Step == \/ Ev.g = "drv" /\ Drive(Ev.op, Ev.a)
         \/ Ev.g = "p" /\ CallP(R(Ev.r, Ev.v))
         \/ Ev.g = "out" /\ Out
 
-TraceNext == /\ l <= Len(Traces[tid].h)
-             /\ Step
-             /\ hist'[Len(hist')] = Ev
-             /\ l' = l + 1
-             /\ UNCHANGED tid
-             /\ TLCSet(tid, l + 1)
-             /\ (l = Len(Traces[tid].h)) => PrintT(<<"END", tid, kf'>>)      \* which alternative(s) explain the trace
-
-TraceSpec == TraceInit /\ [][TraceNext]_tvars
-
 \* device ledger (RunEngine executions): the calls the devices saw are exactly the device messages the engine
 \* acknowledged, in order -- so the pairing shown on messages holds on the devices
 LedgerCmds == {"stage", "unstage", "set", "monitor", "unmonitor", "kickoff", "complete", "collect",
@@ -49,8 +39,18 @@ Acked(h, k) ==
     IF k >= Len(h) THEN <<>>
     ELSE (IF h[k].g = "out" /\ h[k].r = "yield" /\ h[k].v.m \in LedgerCmds /\ h[k + 1].g = "drv" /\ h[k + 1].op = "send"
           THEN <<h[k].v>> ELSE <<>>) \o Acked(h, k + 1)
-LedgerMatches ==
-    (l = Len(Traces[tid].h) + 1 /\ Traces[tid].led) => Traces[tid].ledger = Acked(Traces[tid].h, 1)
+LedgerMatches == Traces[tid].led => Traces[tid].ledger = Acked(Traces[tid].h, 1)
+
+TraceNext == /\ l <= Len(Traces[tid].h)
+             /\ Step
+             /\ hist'[Len(hist')] = Ev
+             /\ l' = l + 1
+             /\ UNCHANGED tid
+             /\ (l = Len(Traces[tid].h)) => LedgerMatches       \* the last event is accepted only with a matching ledger
+             /\ TLCSet(tid, l + 1)
+             /\ (l = Len(Traces[tid].h)) => PrintT(<<"END", tid, kf'>>)      \* which alternative(s) explain the trace
+
+TraceSpec == TraceInit /\ [][TraceNext]_tvars
 
 Progress(t) == TLCGet(t)
 TraceAccepted ==
